@@ -103,6 +103,20 @@ static void check_state(sat_core &s, lra_theory &th)
   const bool ps = point_sat_assigned(s, th, false);
   for (size_t v = 0; v < th.vals.size(); v++)
     CHECK(!ps || (sat_geq(tval(v), th.lb(v)) && sat_leq(tval(v), th.ub(v))), "(S) the reported bounds contain every solution of the asserted constraints");
+  // (S') bounds / lb / ub / value of linear EXPRESSIONS (lra_theory::bounds(lin) etc.): contain the expression's value in every solution,
+  //      and value(expr) is the expression evaluated on the reported values
+  {
+    const int ec[2][2] = {{1, -1}, {-2, -1}};
+    for (int e = 0; e < 2; e++)
+    {
+      lin ex = lin(0, rational(ec[e][0])) + lin(1, rational(ec[e][1])) + lin(rational(1));
+      const auto b = th.bounds(ex);
+      const long v = (long)ec[e][0] * X + (long)ec[e][1] * Y + 1;
+      CHECK(!ps || (sat_geq(v, b.first) && sat_leq(v, b.second)), "(S') bounds(expression) contain the expression's value in every solution");
+      CHECK(b.first == th.lb(ex) && b.second == th.ub(ex), "(S') lb(expr) / ub(expr) agree with bounds(expr)");
+      CHECK(th.value(ex) == th.value(0) * rational(ec[e][0]) + th.value(1) * rational(ec[e][1]) + rational(1), "(S') value(expression) is the expression on the reported values");
+    }
+  }
   // (L), (E): `a` ranges over ALL SAT assignments that agree with (X, Y) on the assertion literals and satisfy the
   // definitional clauses that existed before the history started (conjunction variables of new_eq)
   bool link = !a[0];
